@@ -208,6 +208,44 @@ class Engine:
             return "sat", s.model()
         return str(r), None
 
+    def second_opinion(self, goal, logic="QF_FP", tlimit_ms=600000):
+        """re-decide PC and not goal with cvc5 (python wheel) on the SMT-LIB text z3 prints; returns 'unsat' | 'sat' | 'unknown' |
+        'error: ...'.  Used as a cross-check only (thorough tier); a disagreement makes the query inconclusive."""
+        try:
+            import cvc5
+        except ImportError:
+            return "error: cvc5 not installed"
+        s = z3.Solver()
+        for a in self.solver.assertions():
+            s.add(a)
+        s.add(z3.Not(goal))
+        text = "\n".join(l for l in s.to_smt2().split("\n") if not l.startswith("(set-info"))
+        t = time.time()
+        try:
+            tm = cvc5.TermManager()
+            slv = cvc5.Solver(tm)
+            slv.setOption("tlimit", str(tlimit_ms))
+            slv.setLogic(logic)
+            parser = cvc5.InputParser(slv)
+            parser.setStringInput(cvc5.InputLanguage.SMT_LIB_2_6, text, "query")
+            sm = parser.getSymbolManager()
+            out = []
+            while True:
+                cmd = parser.nextCommand()
+                if cmd.isNull():
+                    break
+                r = str(cmd.invoke(slv, sm)).strip()
+                if r:
+                    out.append(r)
+            res = out[-1] if out else "unknown"
+            if "(error" in " ".join(out):
+                res = "error: " + " ".join(out)[:200]
+        except Exception as ex:
+            res = "error: %s" % str(ex)[:200]
+        self.stats["cvc5_queries"] += 1
+        self.stats["cvc5_s"] += int(time.time() - t)
+        return res
+
     def model(self):
         r = self.check(count=False)
         if r == z3.sat:
